@@ -188,7 +188,7 @@ def shard(args):
 
 
 def run(ctx):
-    n = 3 if ctx.tier == 'quick' else 90
+    n = 3 if ctx.tier == 'quick' else 40
     shards = [{'shard': i, 'n': n} for i in range(common.NCPU)]
     results = common.run_shards('checks.c18', shards, timeout=3400)
     common.merge_shards(ctx, results)
